@@ -75,6 +75,9 @@ class Interner:
         return {"t": "other", "id": self.s(repr(v))}
 
 
+PARALLEL = max(1, int(os.environ.get("VERIF_TLC_PARALLEL", "6")))
+
+
 def validate(module, records, tag, chunk=1500, timeout=1800, constants=None, ck=None, canary=None):
     """Run TLC over the records in chunks; return {tid: verdict-dict}.
 
@@ -97,25 +100,39 @@ def validate(module, records, tag, chunk=1500, timeout=1800, constants=None, ck=
         records = list(records) + canaries
     d = os.path.join(BUILD, "traces")
     os.makedirs(d, exist_ok=True)
-    for c in range(0, len(records), chunk):
+    cfg = tlc.cfg_text(constants=constants, init="TInit", next_="TNext")
+
+    def one(c):
         part = records[c:c + chunk]
         path = os.path.join(d, "%s_%d.%d.ndjson" % (tag, c, os.getpid()))
         with open(path, "w") as f:
             for r in part:
                 f.write(json.dumps(r, separators=(",", ":")) + "\n")
-        cfg = tlc.cfg_text(constants=constants, init="TInit", next_="TNext")
         r = tlc.run(module, cfg, tag="%s_%d" % (tag, c), workers=1, timeout=timeout,
-                    env={"TRACE_FILE": path}, heap="6g")
-        if ck is not None:
-            ck.add_tlc("%s_%d" % (tag, c), r)
+                    env={"TRACE_FILE": path}, heap="6g" if PARALLEL == 1 else "3g")
+        got = {}
         for p in r.prints:
             if isinstance(p, dict) and "tid" in p and "verdict" in p:
-                verdicts[p["tid"]] = p
-        missing = [x["tid"] for x in part if x["tid"] not in verdicts]
+                got[p["tid"]] = p
+        missing = [x["tid"] for x in part if x["tid"] not in got]
         if missing:
             raise MachineryFailure("TLC returned no verdict for %d of %d traces (first %r) in %s\n%s" % (
                 len(missing), len(part), missing[0], module, r.out[-1500:]))
         os.remove(path)
+        return c, r, got
+
+    offsets = list(range(0, len(records), chunk))
+    # each chunk is one TLC process (one JVM start): several at a time when there are many
+    if len(offsets) > 2 and PARALLEL > 1:
+        from concurrent.futures import ThreadPoolExecutor
+        with ThreadPoolExecutor(max_workers=PARALLEL) as ex:
+            results = list(ex.map(one, offsets))
+    else:
+        results = [one(c) for c in offsets]
+    for c, r, got in results:
+        if ck is not None:
+            ck.add_tlc("%s_%d" % (tag, c), r)
+        verdicts.update(got)
     for c in canaries:
         v = verdicts.pop(c["tid"])
         if v["verdict"] in ("ok", "skipped-excluded"):
